@@ -193,3 +193,24 @@ func init() {
 	regExtern("github.com/free5gc/chf/pkg/app.App.Terminate", "App.Terminate: no effect on modelled state", pureOpaque)
 	regExtern("github.com/free5gc/chf/internal/sbi.ServerChf.Terminate", "App.Terminate: no effect on modelled state", pureOpaque)
 }
+
+func init() {
+	// FTP client of the charging gateway function (internal/cgf): an opaque dependency
+	regExtern("github.com/jlaffaye/ftp.Dial", "ftp.Dial: a non-nil connection and nil error, or nil and an error", func(ex *Exec, fr *Frame, st *State, pc *Term, fn *ssa.Function, args []Value, pos token.Pos) (Value, *Term) {
+		p := Fresh("ftp.conn", BV64)
+		ok := Fresh("ftp.dial.ok", BoolSort)
+		ex.assume(pc, And(ULt(p, st.next), Eq(Not(Eq(p, C64(0))), ok)))
+		errTag := Ite(ok, C64(0), Const(typeTag(types.Universe.Lookup("error").Type())+1002, 64))
+		return VTuple{[]Value{VPtr{T: p}, VIface{errTag, Ite(ok, C64(0), Fresh("err$dial", BV64))}}}, pc
+	})
+	regPrefix("github.com/jlaffaye/ftp.", "ftp client options: opaque values", pureOpaque)
+	regPrefix("(*github.com/jlaffaye/ftp.ServerConn).", "ftp client calls on a connection (receiver must not be nil): opaque results, no effect on modelled state", func(ex *Exec, fr *Frame, st *State, pc *Term, fn *ssa.Function, args []Value, pos token.Pos) (Value, *Term) {
+		ex.safety(fr, "nil", pos, pc, Not(Eq(args[0].(VPtr).T, C64(0))))
+		return freshResults(ex, st, pc, fn, "ftp$"+fn.Name()), pc
+	})
+	regExtern("bytes.NewReader", "bytes.NewReader: an opaque non-nil reader", func(ex *Exec, fr *Frame, st *State, pc *Term, fn *ssa.Function, args []Value, pos token.Pos) (Value, *Term) {
+		p := Fresh("bytes.reader", BV64)
+		ex.assume(pc, And(Not(Eq(p, C64(0))), ULt(p, st.next)))
+		return VPtr{T: p}, pc
+	})
+}
